@@ -16,8 +16,11 @@ import (
 )
 
 type subCase struct {
-	stack  []layerSpec // T<tag> | M, outermost first
-	subErr bool
+	stack []layerSpec // T<tag> | M, outermost first
+	// one entry per Subscribe call (1..3, at most one accepted): true = the innermost subscriber refuses that call.
+	// The calls up to the first accepted one are made first (a caller retrying a refused Subscribe), the remaining
+	// ones after the messages were received and settled, before Close.
+	subs   []bool
 	closes []bool // one entry per Close call (1..3): true = the innermost subscriber's Close fails that time
 	n      int
 	// per message: a ack / n nack right after receiving; A ack / N nack AFTER the subscription context was cancelled;
@@ -42,7 +45,7 @@ func (c subCase) head() string {
 	if sc == "" {
 		sc = "-"
 	}
-	return "sub " + joinOr(st, ",") + " " + b01(c.subErr) + " " + bits(c.closes) + " " + wh.Itoa(c.n) + " " + sc + " " + wh.Itoa(c.reads)
+	return "sub " + joinOr(st, ",") + " " + bits(c.subs) + " " + bits(c.closes) + " " + wh.Itoa(c.n) + " " + sc + " " + wh.Itoa(c.reads)
 }
 
 func parseSub(f []string) subCase {
@@ -52,7 +55,10 @@ func parseSub(f []string) subCase {
 			c.stack = append(c.stack, parseLayer(l))
 		}
 	}
-	c.subErr = f[2] == "1"
+	c.subs = parseBits(f[2])
+	if len(c.subs) == 0 {
+		c.subs = []bool{false}
+	}
 	c.closes = parseBits(f[3])
 	if len(c.closes) == 0 {
 		c.closes = []bool{false}
@@ -72,7 +78,8 @@ func parseSub(f []string) subCase {
 // it, and when the subscriber is closed).
 type scriptSub struct {
 	msgs        []*message.Message
-	subErr      bool
+	subScript   []bool // Subscribe call i is refused iff subScript[i]
+	subCalls    int
 	closeScript []bool // Close call i fails iff closeScript[i]
 	ch          chan *message.Message
 	closing     chan struct{}
@@ -85,10 +92,13 @@ type scriptSub struct {
 }
 
 func (s *scriptSub) Subscribe(ctx context.Context, topic string) (<-chan *message.Message, error) {
-	if s.subErr {
+	s.mu.Lock()
+	call := s.subCalls
+	s.subCalls++
+	if (call < len(s.subScript) && s.subScript[call]) || s.started {
+		s.mu.Unlock()
 		return nil, errSub
 	}
-	s.mu.Lock()
 	s.started = true
 	for _, m := range s.msgs {
 		mctx, cancel := context.WithCancel(ctx)
@@ -150,7 +160,7 @@ func hasM(st []layerSpec) bool {
 }
 
 func runSub(c subCase) (string, string) {
-	inner := &scriptSub{subErr: c.subErr, closeScript: c.closes, ch: make(chan *message.Message),
+	inner := &scriptSub{subScript: c.subs, closeScript: c.closes, ch: make(chan *message.Message),
 		closing: make(chan struct{}), done: make(chan struct{})}
 	idOf := map[*message.Message]int{}
 	for i := 0; i < c.n; i++ {
@@ -184,8 +194,31 @@ func runSub(c subCase) (string, string) {
 	withM := hasM(c.stack)
 	subCtx, cancelSub := context.WithCancel(context.Background())
 	defer cancelSub()
-	out, err := sub.Subscribe(subCtx, "topic")
-	obs := "sub=" + errClass(err)
+	// Subscribe, retrying a refused call, until one is accepted; every call under the watchdog
+	var out <-chan *message.Message
+	var err error = errSub
+	var subRes []string
+	subscribe := func() string {
+		var ch <-chan *message.Message
+		var e error
+		r := guard(func() string {
+			ch, e = sub.Subscribe(subCtx, "topic")
+			return errClass(e)
+		})
+		if r == "ok" {
+			out, err = ch, nil
+		}
+		return r
+	}
+	nextSub := 0
+	for nextSub < len(c.subs) && err != nil {
+		r := subscribe()
+		subRes = append(subRes, r)
+		nextSub++
+		if r == "stuck" {
+			nextSub = len(c.subs)
+		}
+	}
 	var recv []string
 	var got []*message.Message
 	settled := 0
@@ -238,7 +271,19 @@ func runSub(c subCase) (string, string) {
 			recv = append(recv, wh.Itoa(id)+":"+wh.HexS(m.Metadata.Get("path"))+":"+same+":"+is)
 		}
 	}
-	obs += "|recv=" + joinOr(recv, ",")
+	// the remaining (refused) Subscribe calls: with messages and acks having flowed in between
+	for ; nextSub < len(c.subs); nextSub++ {
+		var e error
+		r := guard(func() string {
+			_, e = sub.Subscribe(subCtx, "topic")
+			return errClass(e)
+		})
+		subRes = append(subRes, r)
+		if r == "stuck" {
+			break
+		}
+	}
+	obs := "sub=" + strings.Join(subRes, ",") + "|recv=" + joinOr(recv, ",")
 	// snapshot A: the settled messages are counted, the unsettled ones are not (the counting goroutines stay)
 	expA := 0
 	if withM {
@@ -268,14 +313,11 @@ func runSub(c subCase) (string, string) {
 	// Close, as often as the case says (a caller that retries a failed Close)
 	var crs []string
 	for range c.closes {
-		crs = append(crs, func() (r string) {
-			defer func() {
-				if v := recover(); v != nil {
-					r = wh.PanicText(v)
-				}
-			}()
-			return errClass(sub.Close())
-		}())
+		r := guard(func() string { return errClass(sub.Close()) })
+		crs = append(crs, r)
+		if r == "stuck" {
+			break // a Close that hangs holds the decorator's locks: later calls would hang as well
+		}
 	}
 	inner.mu.Lock()
 	closes := inner.closes
